@@ -1,12 +1,13 @@
 #!/bin/sh
 # tools/try_seed.sh <property id> <patch.diff> [tier]
 # Runs ./check <id> against a scratch worktree of /repo's HEAD with the patch applied (never touches /repo).
-set -e
-ID=$1; PATCH=$2; TIER=${3:-quick}
+ID=$1; PATCH=$(readlink -f "$2"); TIER=${3:-quick}
 WT=/tmp/try-$ID-$$
-git -C /repo worktree add -q "$WT" HEAD
-if ! git -C "$WT" apply "$PATCH"; then echo "PATCH DOES NOT APPLY"; git -C /repo worktree remove --force "$WT"; exit 3; fi
-set +e
+git -C /repo worktree add -q "$WT" HEAD || exit 3
+if ! git -C "$WT" apply "$PATCH" 2>/dev/null; then
+  # the seed may have been written against an older HEAD (hook commits landed since): 3-way apply
+  if git -C "$WT" apply -3 "$PATCH"; then git -C "$WT" reset -q; else echo "PATCH DOES NOT APPLY"; git -C /repo worktree remove --force "$WT"; exit 3; fi
+fi
 VERIF_REPO=$WT VERIF_WORKDIR=/tmp/trywk-$ID-$$ VERIF_EVIDENCE_DIR=/tmp/trywk-$ID-$$/ev /verif/check "$ID" --tier "$TIER"
 RC=$?
 for f in /tmp/trywk-$ID-$$/$ID/replay-*.json; do [ -f "$f" ] && { echo "--- $f"; head -c 1500 "$f"; echo; }; done
